@@ -40,3 +40,38 @@ def second_opinion(solver, timeout_ms):
     except OSError:
       pass
   return None, None
+
+
+def retry(solver, timeout_ms):
+  """Portfolio for a query z3 left `unknown`: fresh z3 solvers on the same
+  assertions with other seeds / quantifier strategies, then cvc5.
+
+  Returns (z3.unsat | z3.sat | None, backend, model | None).  `sat` is only
+  accepted from z3 (with a model)."""
+  assertions = solver.assertions()
+  variants = [
+      {'smt.random_seed': 1},
+      {'smt.random_seed': 7, 'smt.mbqi': False},
+      {'smt.random_seed': 3, 'smt.ematching': True, 'smt.mbqi': True, 'smt.qi.eager_threshold': 100},
+      {'smt.random_seed': 11, 'smt.arith.solver': 2},
+  ]
+  for k, opts in enumerate(variants):
+    s2 = z3.Solver()
+    s2.set('timeout', int(timeout_ms))
+    for key, val in opts.items():
+      try:
+        s2.set(key, val)
+      except z3.Z3Exception:
+        pass
+    s2.add(assertions)
+    r = s2.check()
+    if r == z3.unsat:
+      STATS['z3'] += 1
+      return z3.unsat, f'z3/v{k + 1}', None
+    if r == z3.sat:
+      try:
+        return z3.sat, f'z3/v{k + 1}', s2.model()
+      except z3.Z3Exception:
+        pass
+  r, b = second_opinion(solver, timeout_ms)
+  return r, b, None
